@@ -68,7 +68,7 @@ class TimedWorld:
 
   def run(self, body, step_limit=600000):
     s = detsched.Scheduler(schedule=self.case["schedule"], step_limit=step_limit,
-                           trace_files=[self.files["activeobject"]])
+                           trace_files=[self.files["activeobject"]], timed=self.case.get("timed_schedule"))
     self.sched = s
     s.run(body)
     return s
